@@ -254,8 +254,9 @@ def apply(text, gen, enabled='', fn_id='?', local=()):
         before = hits.copy()
         run(rid, f'local /{pat}/', re.compile(pat, re.S), repl)
         if hits == before:
-            from .gen import Undecided
-            raise Undecided(f'{fn_id}: local rewrite {rid} /{pat}/ no longer matches the body (stale rule)')
+            # the text this rule rewrites is not there any more: a rewrite that matches nothing changes nothing. Noted (evidence),
+            # not fatal: if the new text needs a rule that does not exist, Verus rejects the body and the function is stubbed
+            gen.notes.append(f'{fn_id}: local rewrite {rid} /{pat[:80]}/ matches nothing any more (skipped)')
     # R3: `ArchiveFileBlockType::X as u8` -> the discriminant written in the enum definition of /repo
     rx = re.compile(r'(?:ArchiveFileBlockType|Self)::(FileStart|FileContent|EndOfArchiveData|EndOfFile) as u8')
     if rx.search(out):
